@@ -177,17 +177,28 @@ def bmp_rle_encode(rows_file_order, bpp, delta_demo=False, eol_before_eob=False)
     nrows = len(rows_file_order)
     for r, row in enumerate(rows_file_order):
         x, w = 0, len(row)
-        if delta_demo and r == 1 and w >= 4:
+        if delta_demo == 2 and nrows >= 4:
+            # a delta that jumps over a whole row: file row 0 holds two pixels, then delta (dx=1, dy=2) lands on file
+            # row 2 at x=3; the rest of row 0, all of row 1 and the first three pixels of row 2 are skipped
+            if r == 0:
+                emit_run(1, row[0]); emit_run(1, row[1]); out.extend([0, 2, 1, 2])
+                skipped.update({(0, i) for i in range(2, w)}); skipped.update({(1, i) for i in range(0, w)}); skipped.update({(2, i) for i in range(0, 3)})
+                continue
+            if r == 1:
+                continue
+            if r == 2:
+                x = 3
+        if delta_demo == 1 and r == 1 and w >= 4:
             # row 1: one pixel, then delta (dx=2, dy=0) skipping two pixels, then the rest
             emit_run(1, row[0]); out.extend([0, 2, 2, 0]); skipped.update({(r, 1), (r, 2)}); x = 3
-        if delta_demo and r == 2 and nrows >= 4:
+        if delta_demo == 1 and r == 2 and nrows >= 4:
             # row 2: two pixels, then delta (dx=1, dy=1): lands on row 3 at x=3; the rest of row 2 and the
             # first three pixels of row 3 are skipped
             emit_run(1, row[0]); emit_run(1, row[1])
             out.extend([0, 2, 1, 1])
             skipped.update({(r, i) for i in range(2, w)}); skipped.update({(r + 1, i) for i in range(0, 3)})
             continue
-        if delta_demo and r == 3 and nrows >= 4:
+        if delta_demo == 1 and r == 3 and nrows >= 4:
             x = 3
         lit = []
 
@@ -255,7 +266,7 @@ def make_bmp(variant, w, h):
     order = list(range(h)) if top_down else list(range(h - 1, -1, -1))
     rle_stream = None
     if kind in ('rle4', 'rle8'):
-        rle_stream, skipped = bmp_rle_encode([idx[y] for y in order], bpp, delta_demo=delta,
+        rle_stream, skipped = bmp_rle_encode([idx[y] for y in order], bpp, delta_demo=int(delta),
                                              eol_before_eob=variant.get('eol_eob', False))
         undefined = {(order[r], x) for (r, x) in skipped}
         data = rle_stream
@@ -350,7 +361,7 @@ def make_bmp(variant, w, h):
     label = variant.get('label') or '_'.join([kind] + ([header] if header != 'win' else []) +
                                              (['td'] if top_down else []) +
                                              (['c%d' % clr_used] if clr_used else []) +
-                                             (['delta'] if delta else []) +
+                                             (['delta' if int(delta) == 1 else 'delta_dy2'] if delta else []) +
                                              (['eoleob'] if variant.get('eol_eob') else []))
     props = dict(bpp=bpp, compression=comp, header_size=dict(win=40, os2=12, v4=108)[header],
                  top_down=int(top_down), clr_used=clr_used, palette_entries=ncolors,
@@ -366,8 +377,8 @@ BMP_VARIANTS = [
     dict(kind='pal4', top_down=True), dict(kind='pal1', top_down=True),
     # run-length encoded (always bottom-up)
     dict(kind='rle8', clr_used=24), dict(kind='rle8', clr_used=24, eol_eob=True),
-    dict(kind='rle8', clr_used=24, delta=True),
-    dict(kind='rle4'), dict(kind='rle4', clr_used=6, eol_eob=True), dict(kind='rle4', delta=True),
+    dict(kind='rle8', clr_used=24, delta=True), dict(kind='rle8', clr_used=24, delta=2),
+    dict(kind='rle4'), dict(kind='rle4', clr_used=6, eol_eob=True), dict(kind='rle4', delta=True), dict(kind='rle4', delta=2),
     # 16 bit
     dict(kind='rgb555'), dict(kind='rgb555', top_down=True), dict(kind='bf565'), dict(kind='bf555'),
     dict(kind='bf565', header='v4'),
